@@ -592,6 +592,7 @@ func (t *tScreen) prepareKeys() {
 	t.prepareKey(KeyCancel, ti.KeyCancel)
 	t.prepareKey(KeyExit, ti.KeyExit)
 	t.prepareKey(KeyBacktab, ti.KeyBacktab)
+	t.prepareKey(KeyClear, ti.KeyClear)
 
 	t.prepareKeyMod(KeyRight, ModShift, ti.KeyShfRight)
 	t.prepareKeyMod(KeyLeft, ModShift, ti.KeyShfLeft)
@@ -601,6 +602,8 @@ func (t *tScreen) prepareKeys() {
 	t.prepareKeyMod(KeyEnd, ModShift, ti.KeyShfEnd)
 	t.prepareKeyMod(KeyPgUp, ModShift, ti.KeyShfPgUp)
 	t.prepareKeyMod(KeyPgDn, ModShift, ti.KeyShfPgDn)
+	t.prepareKeyMod(KeyInsert, ModShift, ti.KeyShfInsert)
+	t.prepareKeyMod(KeyDelete, ModShift, ti.KeyShfDelete)
 
 	t.prepareKeyMod(KeyRight, ModCtrl, ti.KeyCtrlRight)
 	t.prepareKeyMod(KeyLeft, ModCtrl, ti.KeyCtrlLeft)
